@@ -13,6 +13,8 @@ mod c12;
 mod c13;
 mod c15;
 mod c16;
+mod c17;
+mod c18;
 mod airmon;
 mod c01;
 mod c02;
@@ -168,6 +170,8 @@ fn real_main() {
                 "C13" => c13::generate(&mut em, seed, thorough),
                 "C15" => c15::generate(&mut em, seed, thorough),
                 "C16" => c16::generate(&mut em, seed, thorough),
+                "C17" => c17::generate(&mut em, seed, thorough),
+                "C18" => c18::generate(&mut em, seed, thorough),
                 "C01" => c01::generate(&mut em, seed, thorough),
                 "C02" => c02::generate(&mut em, seed, thorough),
                 "C03" => c03::generate(&mut em, seed, thorough),
